@@ -1,8 +1,9 @@
-(* C20 — fields collections are self-consistent (native part; the restored part
-   is in Properties/C20r.v once the unmarshaler model is in place).
+(* C20 — fields collections are self-consistent: native fields (theorems C20_native_...) and the
+   fields of restored errors (theorems C20_restored_...).
    Statements only; proofs in Proofs/C20Proofs.v. *)
 From Coq Require Import Sorting.Sorted Sorting.Permutation.
-From Errdef Require Import Base.Str Model.Core Model.GoErrors Model.Prog Check.C03 Check.C20 Proofs.C20Proofs.
+From Errdef Require Import Base.Str Base.Outcome Model.Core Model.GoErrors Model.Prog Model.Convert Model.Unmarshal
+  Check.C03 Check.C20 Check.UM Proofs.C20Proofs Proofs.C12Proofs Proofs.C20rProofs.
 
 (* invariant: key ids unique, indices strictly increasing and bounded by lastIndex;
    established by newFields, preserved by set, and true of every factory any program creates *)
@@ -35,6 +36,40 @@ Theorem C20_order_independent_of_map_iteration : forall f l',
   wf_fields f -> Permutation (f_data f) l' -> sort_by_idx (f_data f) = sort_by_idx l'.
 Proof. intros f l' W P. apply order_independent_of_iteration; [exact P|now apply wf_nodup_idx]. Qed.
 Print Assumptions C20_order_independent_of_map_iteration.
+
+(* ---------- restored errors (unmarshaler/field.go) ---------- *)
+
+(* a restored error exposes every decoded field exactly once, either typed or unknown:
+   the names of its entries are a permutation of the decoded names, pairwise distinct,
+   with distinct key ids among the typed ones - for every configuration and document *)
+Theorem C20_restored_partition : forall c m k t fs st cs u e def,
+  resolve_kind_u c k = UOk def -> keys_wf c def -> NoDup (map fst fs) ->
+  unmarshal c (DD m k t fs st cs u) = UOk e ->
+  Permutation (map e_name (entries e)) (map fst fs) /\ rwf e.
+Proof. exact restored_partition. Qed.
+Print Assumptions C20_restored_partition.
+
+(* the same coherence equations as for native fields; Get reports absence for a name that
+   does not occur; FindKeys returns only keys of that name *)
+Theorem C20_restored_coherent : forall e, rwf e ->
+  rf_len e = List.length (rf_all e) /\
+  (rf_is_zero e = true <-> rf_len e = 0) /\
+  (forall a v, In (a, v) (rf_all e) -> rf_get e a = Some v /\ In a (rf_find_keys e (ak_name a))) /\
+  (forall n a, In a (rf_find_keys e n) -> ak_name a = n /\ exists v, In (a, v) (rf_all e)) /\
+  (forall n, ~ In n (map e_name (entries e)) -> rf_get e (AKName n) = None /\ rf_find_keys e n = []).
+Proof. exact restored_coherent. Qed.
+Print Assumptions C20_restored_coherent.
+
+(* All() of restored fields is one fixed order (sorted by name): identical for every
+   permutation of the entries, and therefore for every unmarshaling of the same input *)
+Theorem C20_restored_order_fixed :
+  (forall l l', Permutation l l' -> NoDup (map e_name l) -> sort_entries l = sort_entries l') /\
+  (forall c m k t fs fs' st cs u e e' def,
+     resolve_kind_u c k = UOk def -> keys_wf c def -> NoDup (map fst fs) -> Permutation fs fs' ->
+     unmarshal c (DD m k t fs st cs u) = UOk e -> unmarshal c (DD m k t fs' st cs u) = UOk e' ->
+     rf_all e = rf_all e' /\ rf_len e = rf_len e').
+Proof. exact (conj sort_perm_invariant restored_all_deterministic). Qed.
+Print Assumptions C20_restored_order_fixed.
 
 Example C20_example :
   let ka := {| k_id := 1; k_name := "a"; k_ty := 1 |} in
